@@ -1,4 +1,6 @@
 """C18 -- DM14 serves no data without the right key, surfaces errors, and recovers."""
+from fractions import Fraction
+
 import j1939
 
 from ..ref import ids
@@ -14,12 +16,15 @@ def dm15_error(error, edcp=0x07, status=5, direct=1):
     return [0x00, (direct << 4) + (status << 1) + 1, error & 0xFF, (error >> 8) & 0xFF, (error >> 16) & 0xFF, edcp, 0xFF, 0xFF]
 
 
-def h_hist(ex, ops, seed_key=True, client='facade'):
+def h_hist(ex, ops, seed_key=True, client='facade', timeout=1, app_delay=None):
     """ops: list of [kind, rw, arg]  kind: ok | wrong_key | refuse_proceed | refuse_respond | error_dm15 | absent
             rw: 'read' | 'write'; arg: error code for refuse_respond / error_dm15"""
     need_key = seed_key or any(o[0] == 'wrong_key' for o in ops)
     rig = Rig(ex, seed_key=need_key, client=client)
     w = rig.w
+    if app_delay is not None:
+        rig.app_delay = Fraction(app_delay)
+    tmo = Fraction(timeout)
     ptr = ex.fresh_int('ptr', 0, (1 << 32) - 1)
     nbytes = 4
     hist = []
@@ -64,9 +69,9 @@ def h_hist(ex, ops, seed_key=True, client='facade'):
         res = None
         try:
             if rw == 'read':
-                res = rig.read(ptr, nbytes, 1, False, True, timeout=1)
+                res = rig.read(ptr, nbytes, 1, False, True, timeout=tmo)
             else:
-                rig.write(ptr, list(values), 1, timeout=1)
+                rig.write(ptr, list(values), 1, timeout=tmo)
         except (RuntimeError, RuntimeWarning, AssertionError) as e:
             err = e
         t_ret = w.now
@@ -96,7 +101,7 @@ def h_hist(ex, ops, seed_key=True, client='facade'):
             ex.claim('key.no_data_without_right_key', len(served) == 0 and len(rig.respond_returns) == n_ret, dict(info, dm16_frames=len(served)))
         if failing:
             ex.claim('error.reported_as_exception', err is not None and not isinstance(err, AssertionError), dict(info, error=repr(err), result=repr(res)[:60]))
-            ex.claim('error.within_timeout', bool(t_ret <= t0 + 1 + T('1/100')), dict(info, took=str(t_ret - t0)))
+            ex.claim('error.within_timeout', bool(t_ret <= t0 + tmo + T('1/100')), dict(info, took=str(t_ret - t0), timeout=str(tmo)))
             code = {'refuse_proceed': 0x100, 'refuse_respond': arg, 'error_dm15': arg, 'wrong_key': 0x1003}.get(kind)
             if err is not None and code is not None:
                 txt = str(err)
@@ -152,6 +157,12 @@ def jobs(tier):
     J([['absent', 'read'], ['ok', 'read']], seed_key=False)
     J([['absent', 'write'], ['ok', 'write']], seed_key=False)
     J([['absent', 'read'], ['ok', 'read']], seed_key=False, client='query')
+    # the caller's timeout is honoured: shorter and longer than the default, absent and slow server
+    for rw in ('read', 'write'):
+        for cl in ('facade', 'query'):
+            J([['absent', rw], ['ok', rw]], seed_key=False, client=cl, timeout='3/10')
+            J([['ok', rw], ['ok', rw]], seed_key=(cl == 'facade'), client=cl, timeout='4', app_delay='7/5')
+            J([['absent', rw], ['ok', rw]], seed_key=False, client=cl, timeout='5/2')
     J([['error_dm15', 'read', 0x10], ['ok', 'read']], seed_key=False, client='query')
     if not q:
         import itertools
@@ -168,6 +179,6 @@ def meta(tier):
         'bounds': ['failure kinds: wrong key (the returned key is a symbolic 16-bit value, split by the solver into = / != expected), refusal at the proceed callback, refusal at respond(False, error), error DM15 from a scripted server for ' + ('10 codes incl. undefined ones' if tier == 'quick' else 'every defined code + undefined ones') + ', absent server',
                    'reads and writes of 4 bytes (pointer, data, values, seed symbolic); histories of 2 operations (thorough: 4) mixing failures and successes on the same objects',
                    'oracle after each failure: exception naming the code (and the library\'s text for defined codes) no later than the caller\'s timeout; callbacks and data only after the matching key; the next well-formed operation succeeds with the C17 oracle; all four state attributes idle at the end'],
-        'outside': ['EDCP extension values other than 0x06/0x07 (the client treats the error indicator as not valid then)', 'histories longer than ' + ('2' if tier == 'quick' else '4'), 'multi-packet data in failure histories'],
+        'outside': ['timeouts other than 0.3 / 1 / 2.5 / 4 s', 'EDCP extension values other than 0x06/0x07 (the client treats the error indicator as not valid then)', 'histories longer than ' + ('2' if tier == 'quick' else '4'), 'multi-packet data in failure histories'],
         'assumptions': ['as C17'],
     }
